@@ -217,7 +217,10 @@ def register(props):
                 "+-Inf, -0, subnormals, 2^63 as float, numeric-string edge spellings, named types, slices, maps, pointers, structs, "
                 "channels, funcs, big.Int, cbor.Tag) x {Unserialize, Validate, Serialize}; the same for float bounds (incl. NaN/Inf bounds), "
                 "string length 0..max+1 and 7 patterns, boolean words from the live table in three spellings, int/string enums members and "
-                "non-members in every representation, unit strings, list/map sizes 0..4 against 7 bound configurations in typed and "
+                "non-members in every representation, unit strings (a fixed list plus, for seconds and bytes, every edge string of the "
+                "definition: zero counts in each position, each unit alone, MaxInt64 written with all units, the same plus one base unit "
+                "= 2^63 by the SUM, single components at / beyond the edge, counts beyond int64 - against no bound, a max bound, the float "
+                "reading and an int enum), list/map sizes 0..4 against 7 bound configurations in typed and "
                 "untyped containers. c02nest: random nesting (depth 1-3) of those kinds with a valid input (raw in random representations "
                 "+ native, exactly typed or any-typed) and single corruptions of every leaf, key and size. distinct = distinct (schema, "
                 "operation, value); non-trivial = the schema declares a constraint or the operation is Unserialize of a raw form",
